@@ -233,3 +233,13 @@ class XModel:
         if c == 'UnaryOpExpr':
             return '%s(%s)' % (self.rtok.get(node.fields['op'].lo), self.show(node.fields.get('element')))
         return node.name
+
+
+def make_frame(I, idx, label='_exit_label'):
+    """Construct xcmp::Frame through its user-provided constructor, whatever number of label strings it takes."""
+    rec = idx.record('xcmp::Frame')
+    ctors = [c for c in rec.ctors if not c.node.get('isImplicit') and c.params and all('string' in qt(p) for p in c.params)]
+    if not ctors:
+        raise AnalysisBroken('xcmp::Frame has no constructor taking label strings')
+    c = sorted(ctors, key=lambda c: len(c.params))[0]
+    return I.construct('xcmp::Frame', [('str', label + ('' if i == 0 else '_%d' % i)) for i in range(len(c.params))])
